@@ -359,9 +359,9 @@ func runC07(r *Run) {
 		got := map[string][]string{}
 		a.Instrs(func(in ssa.Instruction) {
 			if st, ok := in.(*ssa.Store); ok {
-				addr := a.sh.Of(st.Addr).String()
+				lf := lastField(st.Addr)
 				for _, f := range []string{"CurValSet", "PrevValSet", "PrevFinNextValSet"} {
-					if strings.HasSuffix(addr, "rlc."+f) || strings.HasSuffix(addr, "."+f) && strings.Contains(addr, "rlc") {
+					if lf == "tsi.RoundLifecycle."+f {
 						got[f] = append(got[f], a.sh.Of(st.Val).String())
 					}
 				}
